@@ -170,6 +170,18 @@ func genFieldDataset(r *rand.Rand, n int) *fdataset {
 			o.fields["g"] = v
 			cmd = append(cmd, "FIELD", "g", v)
 		}
+		// a field whose name contains a dot (a plain name, no JSON field called "d" exists), next to
+		// fields that sort between "d" and "d.x" and are sometimes JSON documents
+		if r.Intn(3) == 0 {
+			v := pick(r, numTexts)
+			o.fields["d.x"] = v
+			cmd = append(cmd, "FIELD", "d.x", v)
+		}
+		if r.Intn(3) == 0 {
+			v := pick(r, append([]string{"7"}, jsonTexts...))
+			o.fields["d-"] = v
+			cmd = append(cmd, "FIELD", "d-", v)
+		}
 		switch k := r.Intn(10); {
 		case k < 3:
 			o.isStr = true
@@ -200,7 +212,7 @@ type filter struct {
 }
 
 func genWhereOp(r *rand.Rand) filter {
-	name := pick(r, []string{"f", "f", "f", "n", "g"})
+	name := pick(r, []string{"f", "f", "f", "n", "g", "d.x"})
 	op := pick(r, []string{"<", "<=", ">", ">=", "==", "!="})
 	txt := cmpText(r)
 	if name == "n" && r.Intn(3) > 0 {
@@ -232,7 +244,7 @@ func genWhereOp(r *rand.Rand) filter {
 // genWhereRange: WHERE field min max, inclusive unless written "(min" / "(max".
 // min never starts with a letter (the server would read an expression).
 func genWhereRange(r *rand.Rand) filter {
-	name := pick(r, []string{"f", "f", "n", "g"})
+	name := pick(r, []string{"f", "f", "n", "g", "d.x"})
 	lo := pick(r, []string{"-inf", "-inf", "0", "1", "1.0", "-3", "2", "2.5", "3", "_x", `{"a":1}`, `[1,2]`})
 	hi := cmpText(r)
 	if r.Intn(2) == 0 {
@@ -282,7 +294,7 @@ func genWhereRange(r *rand.Rand) filter {
 }
 
 func genWherein(r *rand.Rand) filter {
-	name := pick(r, []string{"f", "f", "n", "g"})
+	name := pick(r, []string{"f", "f", "n", "g", "d.x"})
 	k := 1 + r.Intn(4)
 	if r.Intn(5) == 0 {
 		k = 16 + r.Intn(25) // long lists (an implementation may switch to a lookup table)
